@@ -60,8 +60,8 @@ def main() -> int:
         print(f"[{PID}] cannot import the Django backend: {e}")
         run.notes.append(f"import failed: {e}")
         return run.finish()
-    items, info = ormrun.scalar_items(run.tier, run.seed, {3: 400, 4: 160, 5: 60, 6: 20},
-                                      {3: 8000, 4: 4500, 5: 2200, 6: 900, 7: 300}, 550, (80, 120), (2000, 2000))
+    items, info = ormrun.scalar_items(run.tier, run.seed, {3: 320, 4: 120, 5: 40, 6: 12},
+                                      {3: 8000, 4: 4500, 5: 2200, 6: 900, 7: 300}, 450, (60, 100), (2000, 2000))
     timeout_ms = 60000 if quick else 120000
     pre = [(_replay_known, (e["witness"],)) for e in run.known if _has_region(e)]
     muts = selftest_orm.items(BACKENDS, timeout_ms)
